@@ -49,6 +49,10 @@ def gen_cases(rng, tier):
     else:
       chosen = rng.sample(slots, k)
     chosen = sorted(set(chosen))
+    if i % 5 == 2:
+      # two ranges with identical marker AND start: which of the two acts where they are selected is
+      # ambiguous (accepted either way), but everywhere else the selection is still fully determined
+      chosen = sorted(chosen + [rng.choice(chosen)])
     key = tuple(chosen)
     if key in seen:
       continue
@@ -98,6 +102,14 @@ def points(parts):
   return sorted(pts)
 
 
+def eval_orders(pts, rng):
+  """The selection must not depend on what was evaluated before: visit the points in
+  ascending, descending and shuffled order (the same object serves all of them)."""
+  sh = list(pts)
+  rng.shuffle(sh)
+  return list(pts) + list(reversed(pts)) + sh
+
+
 def poly(c, r, order):
   a, b, cc = c
   if order == 0:
@@ -105,6 +117,11 @@ def poly(c, r, order):
   if order == 1:
     return b + 2 * cc * r
   return 2 * cc
+
+
+def same_slot(parts, a, b):
+  """Two selected indices denote duplicates of one (marker, start) slot - an ambiguous definition."""
+  return a is not None and b is not None and tuple(parts[a][:2]) == tuple(parts[b][:2])
 
 
 def judge(ctx, parts, f, r, route, order_desc, zero_below=None):
@@ -164,6 +181,8 @@ def run_case(case, ctx):
   shared = len(set(s for _, s, _ in parts)) < n
   if shared:
     ctx.cls("shared_start")
+  if len(set((m, s) for m, s, _ in parts)) < n:
+    ctx.cls("duplicate_marker_and_start")
   perms = list(itertools.permutations(range(n)))
   if n > 4:
     perms = [perms[0]] + rng.sample(perms[1:], 20)
@@ -179,11 +198,11 @@ def run_case(case, ctx):
       ctx.violation("hasattr", "multi-range of analytic forms offers no deriv/deriv2", what="hasattr")
       return
     ctx.count("orders_checked")
-    for r in pts:
+    for r in eval_orders(pts, rng):
       w = judge(ctx, parts, f, r, "api", list(perm))
       if w in ("err", "bad"):
         return
-      if winners.setdefault(r, w) != w:
+      if winners.setdefault(r, w) != w and not same_slot(parts, w, winners[r]):
         ctx.violation("order_dependence", "r=%r: listing %s selects range %s but another listing selected %s" % (r, list(perm), w, winners[r]), what="order_dependence")
         return
   # ---------------- potable route: all listings of this set in one file; the first part may omit '>0'
@@ -215,16 +234,16 @@ def run_case(case, ctx):
   for k, perm in enumerate(metas):
     f = pots["P%d" % k]
     ctx.count("orders_checked")
-    for r in pts:
+    for r in eval_orders(pts, rng):
       w = judge(ctx, parts, f, r, "potable", list(perm))
       if w in ("err", "bad"):
         return
-      if winners.setdefault(r, w) != w:
+      if winners.setdefault(r, w) != w and not same_slot(parts, w, winners[r]):
         ctx.violation("order_dependence", "r=%r: potable listing %s selects range %s, other listings %s" % (r, list(perm), w, winners[r]), what="order_dependence")
         return
   qparts = [[">", 0.0, c0]] + extra
   fq = pots["Q"]
-  for r in pts:
+  for r in eval_orders(pts, rng):
     if judge(ctx, qparts, fq, r, "potable-no-leading-marker", "as written") in ("err", "bad"):
       return
   ctx.count("default_start_points", len(pts))
